@@ -554,3 +554,39 @@ _run0 = run
 def run(ctx, rep, tier):
     _run0(ctx, rep, tier)
     _index_lookups(ctx, rep, tier)
+
+
+def _ord_on_symbols(ctx, rep, tier):
+    """C18.j: ord() over transition symbols outside code generation must tolerate the End / Else sentinels (they are not characters)."""
+    model = ctx.model
+    rep.rule("C18.j", "ord() applied to elements of a transition-symbol collection is guarded against the End / Else sentinels")
+    n = 0
+    for q, f in pipeline(model).items():
+        if q.startswith("CodegenCtx.") or q.startswith("RegexMatch.") or q.startswith("BinaryRegexMatch.") or q.startswith("ParseCtx."):
+            continue   # codegen filters End explicitly (C17.b); regex/front-end ord() is applied to characters of literals
+        for c in calls_in(f, nested=False):
+            if isinstance(c.func, ast.Name) and c.func.id == "ord" and c.args and isinstance(c.args[0], ast.Name):
+                n += 1
+                var = c.args[0].id
+                node, guarded = c, False
+                while node in model.parents and node is not f:
+                    node = model.parents[node]
+                    if isinstance(node, ast.IfExp) and re.search(r"isinstance\(%s, str\)" % var, ast.unparse(node.test)):
+                        guarded = True
+                    if isinstance(node, (ast.GeneratorExp, ast.ListComp)):
+                        for g in node.generators:
+                            if any(re.search(r"isinstance\(%s, str\)" % var, ast.unparse(i)) for i in g.ifs):
+                                guarded = True
+                        break
+                rep.check(guarded, "C18.j", q, ast.unparse(c), f"`ord({var})` ranges over transition symbols, which include the End / Else sentinels: TypeError while building a diagnostic "
+                          "(e.g. `optional { end; } end;` with -fcodepoints-in-errors)", line=c.lineno)
+    if n < 1:
+        raise AnalysisError("C18.j: no ord() over symbols found outside codegen (anchor: DFA.append_after message)")
+
+
+_run1 = run
+
+
+def run(ctx, rep, tier):
+    _run1(ctx, rep, tier)
+    _ord_on_symbols(ctx, rep, tier)
